@@ -416,6 +416,34 @@ func c14Run(c *core.Ctx) *core.Result {
 		fl.Include, fl.Exclude, planted = nil, nil, ""
 		r.Count("nondir_dot_mode_cases", 1)
 	}
+	// another directed shape, from a generator of its own: one wildcard copy
+	// whose matches are a directory holding the first member of a hard-link
+	// group, then a symlink of the same base name that leads to a sentinel
+	// directory holding an entry of the member's name (with always-replace it
+	// takes the directory's place), then another member of the group: the
+	// later member must not be linked to what the first member's path names now
+	if lr := core.NewRand(core.Mix(c.Seed, "C14-linkdir", c.Index)); lr.P(1, 25) {
+		nm := core.Pick(lr, []string{"a", "b"}) // names the sentinel directories hold
+		tg := core.Pick(lr, []string{"/outside/d", "/outside", "/outside/d/d", "/" + cn + "/sib/d", "/" + cn + "/sib", "../../outside/d", "../../../outside", "../sib/d"})
+		data := []byte("linked-" + cn)
+		srcT = &tree.Tree{}
+		for _, e := range []tree.Entry{
+			{Path: "a", Type: tree.Dir, Perm: 0755}, {Path: "a/d", Type: tree.Dir, Perm: 0755},
+			{Path: "a/d/" + nm, Type: tree.File, Perm: 0640, UID: 5, GID: 6, Data: data},
+			{Path: "b", Type: tree.Dir, Perm: 0755}, {Path: "b/d", Type: tree.Symlink, Perm: 0777, Target: tg},
+			{Path: "l", Type: tree.Dir, Perm: 0755}, {Path: "l/z", Type: tree.File, Perm: 0640, UID: 5, GID: 6, Data: data, LinkTo: "a/d/" + nm},
+		} {
+			e.Mtime = 1_300_000_000_000_000_000 + int64(len(srcT.Entries))
+			srcT.Entries = append(srcT.Entries, e)
+		}
+		if lr.P(1, 2) {
+			dstT = &tree.Tree{}
+		}
+		srcArg, dstArg = core.Pick(lr, []string{"*/*", "?/?", "[abl]/*"}), core.Pick(lr, []string{"/", "", "."})
+		fl.Wild, fl.Always, fl.CDC, fl.Follow = true, lr.P(4, 5), false, false
+		fl.Include, fl.Exclude, planted = nil, nil, ""
+		r.Count("link_group_below_replaced_directory_cases", 1)
+	}
 	usePatterns := len(fl.Include)+len(fl.Exclude) > 0
 
 	if err := tree.Materialise(srcRoot, srcT); err != nil {
